@@ -99,9 +99,18 @@ func genSched(r *driver.Rand, p *driver.Plan) {
 	if st, _ := baseStage(p.Stage); st == "FMap" && r.Chance(1, 4) {
 		p.Fn = 4 + 5*r.Intn(12)
 	}
+	// failing user functions return something else than the zero value next to the error
+	if r.Chance(1, 2) {
+		p.SetX("err_val", 1)
+	}
 	// a context that ends by expiry: Err() is DeadlineExceeded, not Canceled
 	if p.X("ctx_deadline") == 0 && r.Chance(1, 8) {
 		p.SetX("ctx_deadline", 2)
+	}
+	// a context that cannot be cancelled at all (takes effect only in plans
+	// that never cancel, see driver.Execute)
+	if p.X("ctx_deadline") == 0 && p.CancelStep < 0 && p.CancelMs == 0 && !p.CancelAtEnd && r.Chance(1, 4) {
+		p.SetX("ctx_deadline", 3)
 	}
 	// the stages package fork re-exports, through those entry points
 	switch p.Stage {
